@@ -77,7 +77,7 @@ class Machine(Interp):
                         if is_const(q_) and q_[1] > 0 and (q_[1] & (q_[1] + 1)) == 0 and not is_const(p_):
                             dp = st.dom(p_)
                             # x & (2^m - 1) with 0 <= x <= 2^m - 1 (by interval or by the path's linear facts) is x
-                            if dp.lo >= 0 and (dp.hi <= q_[1] or (p_[0] in ('add', 'sub', 'mul') and st.prove_le(p_, q_))):
+                            if dp.lo >= 0 and (dp.hi <= q_[1] or ((p_[0] in ('add', 'sub', 'mul') or st.facts) and p_[0] not in ('cat', 'byte') and st.prove_le(p_, q_))):
                                 masked = p_
                 if masked is not None:
                     r = masked
